@@ -194,6 +194,137 @@ let () =
     let x = z_of_hex (List.nth a 1) in
     f64s (match List.nth a 0 with "sin" -> gosin x | "cos" -> gocos x | _ -> goacos x))
 
+
+(* ---- aspect fitting ---- *)
+let () =
+  reg "FIT" (fun a ->
+    match a with
+    | kind :: rest ->
+        (match List.map z_of_hex rest with
+         | [minx; miny; maxx; maxy; dx; dy; ax; ay] ->
+             let f = if kind = "meet" then aspect_meet else aspect_slice in
+             let (((a1, b1), c1), d1) = f f32ops minx miny maxx maxy dx dy ax ay in
+             String.concat " " (List.map f32s [a1; b1; c1; d1])
+         | [minx; miny; maxx; maxy] ->
+             let (w, h) = vb_size f32ops minx miny maxx maxy in f32s w ^ " " ^ f32s h
+         | _ -> failwith "FIT args")
+    | _ -> failwith "FIT")
+
+(* ---- pipelines: actions incl. generator helpers, on a Renderer (direct) and on an Encoder whose
+   bytes are then decoded into a second Renderer ---- *)
+type gen_action =
+  | GAct of eact
+  | GHelper of z * z * Model.genstop list * z list   (* shape, spread, stops, matrix *)
+
+let rec parse_stops n toks acc =
+  if n = 0 then (List.rev acc, toks)
+  else match toks with
+    | off :: col :: r -> parse_stops (n - 1) r ({ gs_offset = z_of_hex off; gs_color = rgba_of_hex col } :: acc)
+    | _ -> failwith "stops"
+
+let rec gacts_of_toks (t : string list) : gen_action list =
+  match t with
+  | [] -> []
+  | "LG" :: x1 :: y1 :: x2 :: y2 :: sp :: n :: r ->
+      let (stops, r') = parse_stops (int_of_string n) r [] in
+      GHelper (Z0, z_of_dec sp, stops, linear_matrix (z_of_hex x1) (z_of_hex y1) (z_of_hex x2) (z_of_hex y2)) :: gacts_of_toks r'
+  | "CG" :: cx :: cy :: rx :: ry :: sp :: n :: r ->
+      let (stops, r') = parse_stops (int_of_string n) r [] in
+      GHelper (z_of_int 1, z_of_dec sp, stops, circular_matrix (z_of_hex cx) (z_of_hex cy) (z_of_hex rx) (z_of_hex ry)) :: gacts_of_toks r'
+  | "EG" :: cx :: cy :: rx :: ry :: sx :: sy :: sp :: n :: r ->
+      let (stops, r') = parse_stops (int_of_string n) r [] in
+      GHelper (z_of_int 1, z_of_dec sp, stops, elliptical_matrix (z_of_hex cx) (z_of_hex cy) (z_of_hex rx) (z_of_hex ry) (z_of_hex sx) (z_of_hex sy)) :: gacts_of_toks r'
+  | "GG" :: sh :: sp :: m0 :: m1 :: m2 :: m3 :: m4 :: m5 :: n :: r ->
+      let (stops, r') = parse_stops (int_of_string n) r [] in
+      GHelper (z_of_dec sh, z_of_dec sp, stops, List.map z_of_hex [m0; m1; m2; m3; m4; m5]) :: gacts_of_toks r'
+  | _ ->
+      (* one ordinary action: find how many tokens it takes by parsing the head *)
+      let rec split k =
+        if k > List.length t then failwith ("bad token " ^ List.hd t)
+        else
+          let (h, r) = take k t in
+          match (try Some (acts_of_toks h) with _ -> None) with
+          | Some [a] -> (a, r)
+          | _ -> split (k + 1) in
+      let (a, r) = split 1 in
+      GAct a :: gacts_of_toks r
+
+let generr_str = function GTooManyStops -> "g=ERR1" | GCSelUsed -> "g=ERR2"
+
+let () =
+  reg "PIPE" (fun a ->
+    match a with
+    | x0 :: y0 :: w :: h :: toks ->
+        let toks = List.filter (fun s -> s <> "LOG") toks in
+        let acts = gacts_of_toks toks in
+        let rs = ref (rinit n32 (z_of_dec x0) (z_of_dec y0) (z_of_dec w) (z_of_dec h)) in
+        let es = ref enc_zero in
+        let obs = Buffer.create 256 in
+        let sel () =
+          let (e1, oc) = enc_act !es AReadCSel in
+          let (e2, on) = enc_act e1 AReadNSel in
+          es := e2;
+          let g o = match o with OSel v -> int_of_z v | _ -> -1 in
+          Buffer.add_string obs (Printf.sprintf "%d,%d/%d,%d " (g oc) (g on) (int_of_z !rs.r_csel) (int_of_z !rs.r_nsel)) in
+        List.iter (fun ga ->
+          (match ga with
+           | GAct (ACall c) -> rs := rstep32 !rs c; es := fst (enc_act !es (ACall c))
+           | GAct a -> es := fst (enc_act !es a)
+           | GHelper (sh, sp, stops, m) ->
+               (* into the Renderer *)
+               (match set_gradient !rs.r_csel !rs.r_nsel sh sp stops m with
+                | Inl e -> Buffer.add_string obs (generr_str e ^ "r ")
+                | Inr cs -> List.iter (fun c -> rs := rstep32 !rs c) cs; Buffer.add_string obs "g=okr ");
+               (* into the Encoder *)
+               let (e1, oc) = enc_act !es AReadCSel in
+               let (e2, on) = enc_act e1 AReadNSel in
+               es := e2;
+               let g o = match o with OSel v -> v | _ -> Z0 in
+               (match set_gradient (g oc) (g on) sh sp stops m with
+                | Inl e -> Buffer.add_string obs (generr_str e ^ "e ")
+                | Inr cs -> List.iter (fun c -> es := fst (enc_act !es (ACall c))) cs; Buffer.add_string obs "g=oke "));
+          sel ()) acts;
+        let direct = String.concat " " (List.map rcall_str !rs.r_log) in
+        let via =
+          match snd (enc_bytes !es) with
+          | BytesErr x -> "ENCERR" ^ string_of_int (eerr_code x)
+          | BytesOk b ->
+              let (cs, o) = decode_calls [] b in
+              let s2 = rrun32 (rinit n32 (z_of_dec x0) (z_of_dec y0) (z_of_dec w) (z_of_dec h)) cs in
+              str_of_outcome o ^ " " ^ String.concat " " (List.map rcall_str s2.r_log) in
+        Buffer.contents obs ^ "| " ^ direct ^ " | " ^ via
+    | _ -> failwith "PIPE");
+  (* decode (with options) into a Renderer *)
+  reg "DREN" (fun a ->
+    match a with
+    | x0 :: y0 :: w :: h :: hx :: opts ->
+        let (cs, o) = decode_calls (opts_of_toks opts) (bytes_of_hex hx) in
+        let s = rrun32 (rinit n32 (z_of_dec x0) (z_of_dec y0) (z_of_dec w) (z_of_dec h)) cs in
+        str_of_outcome o ^ " " ^ String.concat " " (List.map rcall_str s.r_log)
+    | _ -> failwith "DREN");
+  (* reuse: run A, then B on the same Renderer; print the rasteriser log produced by B, and by B on a fresh Renderer *)
+  reg "REUSE" (fun a ->
+    match a with
+    | x0 :: y0 :: w :: h :: toks ->
+        let rec split acc = function "|" :: r -> (List.rev acc, r) | x :: r -> split (x :: acc) r | [] -> (List.rev acc, []) in
+        let (ta, tb) = split [] toks in
+        let s0 = rinit n32 (z_of_dec x0) (z_of_dec y0) (z_of_dec w) (z_of_dec h) in
+        let sa = rrun32 s0 (calls_of_toks ta) in
+        let na = List.length sa.r_log in
+        let sb = rrun32 sa (calls_of_toks tb) in
+        let rec drop n l = if n = 0 then l else match l with _ :: r -> drop (n - 1) r | [] -> [] in
+        let reused = String.concat " " (List.map rcall_str (drop na sb.r_log)) in
+        let fresh = String.concat " " (List.map rcall_str (rrun32 s0 (calls_of_toks tb)).r_log) in
+        reused ^ " || " ^ fresh
+    | _ -> failwith "REUSE");
+  reg "EREUSE" (fun a ->
+    let rec split acc = function "|" :: r -> (List.rev acc, r) | x :: r -> split (x :: acc) r | [] -> (List.rev acc, []) in
+    let (ta, tb) = split [] a in
+    let (ea, _) = enc_run enc_zero (acts_of_toks ta) in
+    let (_, o1) = enc_run ea (acts_of_toks tb) in
+    let (_, o2) = enc_run enc_zero (acts_of_toks tb) in
+    String.concat " " (List.filter_map str_of_obs o1) ^ " || " ^ String.concat " " (List.filter_map str_of_obs o2))
+
 let () =
   let out = Buffer.create (1 lsl 16) in
   (try
